@@ -12,14 +12,21 @@ import common
 from common import run_cmds, run_tlc_many, stable_id
 from render import obj_chain, obj_chain_shared
 
-FAMS = ["vis", "plus", "refs", "omit", "assert", "locals"]
+FAMS = ["vis", "plus", "refs", "omit", "assert", "locals", "strplus"]
 NAMES = ["a", "b"]
+
+
+def text_of(sq):
+    """string value of Objects.tla (0..9 the digits, 10 the letter x)"""
+    return "".join("x" if ch == 10 else str(ch) for ch in sq)
 
 
 def want_get(g):
     """model outcome -> ('val', n) | ('err',)"""
     if g["k"] == "num":
         return ("val", g["n"])
+    if g["k"] == "str":
+        return ("val", text_of(g["s"]))
     return ("err",)   # absent (no such field) and errors both surface as errors of `o.f`
 
 
@@ -37,7 +44,7 @@ def run(chk):
     for f, r in zip(FAMS, rs):
         chk.add_tlc(r, f"Objects[{f}]: implementation-shaped lookups refine the declarative model; consistency")
         rep = r.replay
-        cap = 100000 if thorough else {"vis": 1800, "plus": 1463, "refs": 2500, "omit": 2200, "assert": 1200, "locals": 2200}[f]
+        cap = 100000 if thorough else {"vis": 1800, "plus": 1463, "refs": 2500, "omit": 2200, "assert": 1200, "locals": 2200, "strplus": 4000}[f]
         if len(rep) > cap:
             rng.shuffle(rep)
             if f == "locals":
@@ -70,8 +77,8 @@ def run(chk):
             for f in NAMES:
                 add(ci, "get", pre + f"o.{f}", (style, f))
             add(ci, "manifest", pre + "o", style)
-            if style == 1:
-                continue
+            if style == 1 or c["fam"] == "objects.strplus":
+                continue        # (strplus: field reads and manifestation only - its values are numbers or strings)
             for f in NAMES:
                 add(ci, "index", pre + f"o['{f}']", f)
             if not asserts_fail:
@@ -136,7 +143,7 @@ def run(chk):
         elif kind == "manifest":
             m = c["manifest"]
             if m["k"] == "obj":
-                exp = {x["f"]: x["n"] for x in m["fs"]}
+                exp = {x["f"]: (text_of(x["n"]) if isinstance(x["n"], list) else x["n"]) for x in m["fs"]}
                 if not (r["k"] == "val" and common.json_equal(json.loads(r["out"]), exp)):
                     bad(exp, "manifestation differs from the visible fields of the object model")
             elif r["k"] != "err":
